@@ -15,6 +15,54 @@ class SimHooks(Hooks):
     def __init__(self, mem_fields=('memory',), conn_fields=('io.connected', 'connected')):
         self.mem_fields = mem_fields
         self.conn_fields = conn_fields
+        self.roles = None
+
+    def attach(self, idx):
+        """Called by the interpreter that uses these hooks: the roles of the I/O members are read from the class before anything runs."""
+        self.io_roles(idx)
+
+    def io_roles(self, idx):
+        """Roles of the members of hex::HexSimIO, read from the class: the per-index file objects (arrays of / structs with stream
+        members) and the per-index connection flags (bool).  With exactly one of each they are the ISA's single handle and single
+        "connected" flag per stream index, whatever they are called; otherwise every member keeps its own name (and the comparison
+        with the ISA, which has one handle per index, shows the difference)."""
+        if self.roles is not None:
+            return self.roles
+        files, flags = [], []
+        rec = idx.records.get('hex::HexSimIO')
+        if rec is not None:
+            import re as _re
+            for fd in rec.fields:
+                t = dqt(fd) + ' ' + qt(fd)
+                if 'array<' not in t:
+                    continue
+                el = _re.search(r'array<\s*((?:class |struct )?[\w:<> ,]+?)\s*,\s*\d+', qt(fd))
+                eln = el.group(1).replace('class ', '').replace('struct ', '').strip() if el else ''
+                if 'stream' in t:
+                    files.append(fd['name'])
+                elif _re.search(r'array<\s*bool', t):
+                    flags.append(fd['name'])
+                else:
+                    sub = idx.records.get(eln) or idx.records.get(idx._resolve_record_name(eln.split('::')[-1], 'hex::HexSimIO') or '')
+                    for sf in (sub.fields if sub is not None else []):
+                        st = dqt(sf) + ' ' + qt(sf)
+                        if 'stream' in st:
+                            files.append(fd['name'] + '.' + sf['name'])
+                        elif st.strip().endswith('bool') or qt(sf) == 'bool':
+                            flags.append(fd['name'] + '.' + sf['name'])
+        self.roles = {'files': files, 'flags': flags}
+        if len(flags) == 1:
+            self.conn_fields = tuple(self.conn_fields) + (flags[0], 'io.' + flags[0])
+        return self.roles
+
+    def file_name(self, name):
+        """Canonical name of the file-object array in events (the ISA side calls it <prefix>fileIO)."""
+        r = self.roles or {}
+        if len(r.get('files', ())) == 1:
+            f = r['files'][0]
+            if name == f or name.endswith('.' + f):
+                return name[:len(name) - len(f)] + 'fileIO'
+        return name
 
     def array_space(self, field):
         if field in self.mem_fields or field.endswith('memory_q'):
@@ -78,12 +126,16 @@ class SimHooks(Hooks):
             p.nin += 1 if name == 'get' else 0
             p.events.append((name, 'global:' + str((o.get('referencedDecl') or {}).get('name'))))
             return [(p, var('GETC%d' % p.nin, 32))]
-        # fileIO[index].open / put / get
-        if o['kind'] == 'CXXOperatorCallExpr' and callee_of(o)[1] == 'operator[]' and 'fstream' in t:
-            oc = children(o)
+        # <file object of stream index i>.open / put / get / write / read: the object is an element of an array member, or a stream
+        # member of an element of an array of structs
+        if name in ('open', 'put', 'get', 'write', 'read') and 'stream' in t and o['kind'] in ('CXXOperatorCallExpr', 'MemberExpr') and \
+                self._is_file_object(I, o, p):
             out = []
-            for q, alv in I.lval(oc[1], p):
-                for q2, iv in I.expr(oc[2], q):
+            for q, flv in I.lval(o, p):
+                if not (flv[0] == 'mem' and str(flv[1]).startswith('ARRAY:')):
+                    raise AnalysisBroken('stream operation %s on an unmodelled object %r at %s' % (name, flv[:2], pos(node)))
+                alv = ('field', self.file_name(flv[1][len('ARRAY:'):]))
+                for q2, iv in [(q, flv[2])]:
                     for q3, vals in I.eval_args(args, q2):
                         if name == 'open':
                             q3.events.append(('fopen', alv[1], iv, vals[0], vals[1] if len(vals) > 1 else None))
@@ -123,6 +175,18 @@ class SimHooks(Hooks):
                 out.append((q, var('size(%s)' % lv[1], 64)))
             return out
         return None
+
+    def _is_file_object(self, I, o, p):
+        self.io_roles(I.idx)
+        x = o
+        while x is not None and x.get('kind') in ('MemberExpr', 'ImplicitCastExpr', 'ParenExpr') and children(x):
+            x = strip_noncast(children(x)[0])
+        if x is not None and x.get('kind') == 'CXXOperatorCallExpr' and callee_of(x)[1] == 'operator[]':
+            return True
+        if x is not None and x.get('kind') == 'DeclRefExpr':
+            al = p.locals.get((x.get('referencedDecl') or {}).get('id'))
+            return al is not None and al.__class__.__name__ == '_Alias' and al.lv[0] == 'mem'
+        return False
 
     def free_call(self, I, node, name, args, p):
         if name in ('to_string',):
